@@ -5,6 +5,7 @@ import PdshVerif.Opt.WcollSources
 import PdshVerif.Opt.WcollRefine
 import PdshVerif.Opt.WcollPaths
 import PdshVerif.Opt.WcollAssemble
+import PdshVerif.Opt.WcollSplit
 
 /-!
 # C10  The target list is assembled faithfully from every source
@@ -269,6 +270,33 @@ theorem assemble_refines (mode : LineMode) (fs : FS) (hcap : ∀ n, mode.cap = s
       (assembleOpts mode fs stdin opts env).exprs = (WcollSpec.assemble fs stdin srcs env).exprs ∧
       (assembleOpts mode fs stdin opts env).excl = (WcollSpec.assemble fs stdin srcs env).excluded) :=
   assembleOpts_refines mode fs hcap stdin hstd opts srcs hargs hok env henv
+
+/-- `list_split (",", optarg)` (split.c): a comma-joined list of arguments — each non-empty, without
+a comma outside brackets, brackets balanced (`pieceOK`, decidable) — is split back into exactly
+those arguments; commas inside brackets (`n[1,3]`) do not split -/
+theorem command_line_split (ps : List Str) (h : ∀ p ∈ ps, pieceOK p = true) :
+    listSplit [','] (joinComma ps) = ps :=
+  listSplit_join ps h
+
+/-- hence the hypothesis `opts.flatMap optArgs = srcs.map argOf` of `assemble_refines` holds for
+every command line written as `-w a,b,c -w d ...` over the arguments of its sources (an exclusion
+file inside such a list is `-^F`; `-x ^F,^G` is `optArgs_x_join`) -/
+theorem rendered_options_stand_for_sources (groups : List (List WcollSpec.Source))
+    (hok : ∀ ss ∈ groups, ∀ s ∈ ss, pieceOK (argOf s) = true)
+    (hd : ∀ ss ∈ groups, joinComma (ss.map argOf) ≠ ['-']) :
+    (groups.map fun ss => Opt.w (joinComma (ss.map argOf))).flatMap optArgs =
+      groups.flatten.map argOf := by
+  induction groups with
+  | nil => rfl
+  | cons ss rest ih =>
+    simp only [List.map_cons, List.flatMap_cons, List.flatten_cons, List.map_append]
+    rw [ih (fun x hx => hok x (by simp [hx])) (fun x hx => hd x (by simp [hx])),
+      optArgs_w_join _ (fun p hp => by
+        obtain ⟨s, hs, rfl⟩ := List.mem_map.mp hp
+        exact hok ss (by simp) s hs) (hd ss (by simp))]
+
+example : pieceOK "v[1,4]z".toList = true ∧ pieceOK "^t/A".toList = true ∧ pieceOK "-^t/B".toList = true ∧
+    pieceOK "a,b".toList = false ∧ pieceOK "n[1".toList = false := by decide
 
 /-- `every ^file`: an exclusion file (`-x ^F`, or `-^F` inside a `-w` list) goes through the very
 same reader as a target file; its expressions go to the exclusion list, the target list is
